@@ -44,7 +44,7 @@ def buildMore (w : World) (o : Opts) (g : GSt) (roots : List Spec) (imports : Li
 
 /-- `ModuleGraph::resolve` on the persisted redirects -/
 def GSt.resolve (g : GSt) (s : Spec) : Spec :=
-  resolveWith (fun x => g.redirects.lookup x) resolveCap
+  resolveWith (effRedirect (fun x => (g.slots.lookup x).isSome) (fun x => g.redirects.lookup x)) resolveCap
     (match resolveCap with | some m => m | none => g.redirects.length + 1) s
 
 /-- `Builder::reload`: each specifier is resolved through the redirects, its entry removed, and
